@@ -62,6 +62,24 @@ CHECKS = {
 }
 NA_REASON = "check not built yet in this round (planned in DESIGN.md section 6); no claim is made"
 
+# round 2 (DESIGN.md section 11): additions to the texts above
+ROUND2_TEXT = {
+ "C01": " Round 2: a peer which owns the real chain may also choose WHICH genuine headers it reveals and regenerate a valid MMR proof for exactly that set (shape-only deviations: dropped samples, tail not reaching the boundary block or not ending at the parent of the last header, truncated reorg section); this decides the shape conditions on their own.",
+ "C05": " Round 2: after every step the adopted tip may not move back to a lighter header (peers at different heights, child fast path of a lagging peer).",
+ "C06": " Round 2: also an unsolicited authentic batch with another start number delivered after a restart while a matched-blocks record is pending in the store and not yet recovered into memory.",
+ "C11": " Round 2: one case in four starts with a scripted timeline (an unanswered fetch grows old while the last state is refreshed and a younger request is pending; generated offsets around the 60 s boundary), followed by random events.",
+ "C12": " Round 2: also the three-message sequence proof, forged unproven sibling (recorded as last state), child of the proven header forged to agree with the sibling.",
+ "C16": " Round 2: one case in seven requests more than 1000 hashes at once (several GetBlocksProof / GetTransactionsProof per round); after the fair drain no requested hash, on chain or not, may still be 'fetching' without a request in flight.",
+ "C18": " Round 2: also the same out point in two inputs with different mature since values.",
+}
+ROUND2_NOTE = {
+ "C01": " Fixed by this check in round 2: D34 (sampled proof whose last-n section ends before the tip), D35 (last-n section starting after the boundary block).",
+}
+for _pid, _c in CHECKS.items():
+    _c["text"] += ROUND2_TEXT.get(_pid, "")
+    _c["note"] += ROUND2_NOTE.get(_pid, "")
+    _c["technique"] += "; the thorough tier adds a coverage-guided stage (libFuzzer with sancov counters over the client's code, its input used as the entropy of the same proptest strategy, same oracle, failures shrunk with the value tree)"
+
 hooks_commits = subprocess.check_output(["git", "-C", "/repo", "log", "--format=%h %s"], text=True).splitlines()
 hook_commits = [l.split()[0] for l in hooks_commits if l.split(" ", 1)[1].startswith("verif hook")]
 m = {
@@ -76,10 +94,11 @@ m = {
  },
  "engines": [
    {"name": "lcv", "path": "/verif/harness", "serves_properties": sorted(CHECKS), "kind_free_text": "Rust harness binary: proptest TestRunner driven from main over a deterministic simulator of chain, peers, network and clock talking to the unmodified handlers; sharded over 14 worker processes by ./check"},
+   {"name": "lcvfuzz", "path": "/verif/harness (tests/lcvfuzz.rs, built by tools/build_fuzz.sh into harness/target-fuzz)", "serves_properties": sorted(CHECKS), "kind_free_text": "coverage-guided engine: one libFuzzer target for all properties; the fuzzer's bytes are the entropy (proptest PassThrough RNG, fork patched) of the property's own strategy, the case runs through the property's own oracle; 14 jobs with -runs fixed per property; used by ./check <Cxx> thorough and ./check <Cxx> fuzz"},
  ],
  "checks": [],
  "not_applicable": [],
- "notes": "Known findings and fixed defects: /verif/known_findings.json. Replay: ./check <Cxx> --replay <file>. Exit 2 = machinery failure (never a verdict).",
+ "notes": "Known findings and fixed defects: /verif/known_findings.json. Replay: ./check <Cxx> --replay <file>. Exit 2 = machinery failure (never a verdict). Seeded changes from independent sub-agents: /verif/seeded/<id>/ (round 1) and /verif/seeded/<id>-r2/ (round 2), see DESIGN.md 10.5 and 11.3. LCV_NO_FUZZ=1 skips the coverage-guided stage of the thorough tier.",
 }
 for pid in sorted(props):
     if pid in CHECKS:
